@@ -12,4 +12,6 @@ for f in XlVerif/Props/C*.lean; do
   m=$(basename "$f" .lean)
   lake build "XlVerif.Props.$m" || echo "setup: proofs of $m do not build (the check will report it)"
 done
+# the integrated pipeline model: its transport theorems are re-checked (soft) by the property checks
+lake build XlVerif.Props.X01 XlVerif.Drv.X01 drv_x01 || echo "setup: the integrated model X01 does not build (the checks say so in their evidence)"
 lake build xldriver || true
